@@ -236,7 +236,10 @@ Definition run_case (x : (bool * bool) * (option N * option N) * N * list (N * N
    stdout.readline, lock.release; or it has returned.
    a gc_state_dir() pass is parked BEFORE: the *.meta scan, the non-blocking acquire, _probe,
    release; or it has returned *)
-Inductive ppc := L0 | L1 | L2 | L3 | L4 | L5 | L6 | G0 | G1 | G2 | G3 | G4.
+Inductive ppc := L0 | L1 | L2 | L3 | L4 | L5 | L6 | G0 | G1 | G2 | G3 | G3u | G4.
+(* G3u: a gc pass parked before release AFTER it unlinked the stale triple -- including the lock file itself: the
+   flock it still holds is on an inode the lock path no longer names, so from that moment the per-hash lock is free
+   for every later open() of the path (filelock re-tries when it wins a lock on an unlinked inode). *)
 Record proc := { p_pc : ppc; p_w : option nat; p_res : N }.  (* p_res: 0 none, 1 path (probe), 2 path (spawned), 3 RuntimeError *)
 
 (* a worker (serve_unix) is parked BEFORE: _check_no_existing_listener, _unlink_stale_unix_socket,
@@ -246,7 +249,7 @@ Inductive wph := W0 | W1 | W2 | W3 | W4 | W5 | W6 | W7 | WFail.
 Record wk := { w_ph : wph; w_ready_ok : bool }.   (* w_ready_ok (ghost): the path named this worker when it printed the ready line *)
 
 Record lst := {
-  lock : option nat;      (* (ghost bookkeeping) who the OS granted the per-hash file lock to *)
+  lock : option nat;      (* who holds a flock on the inode the lock PATH currently names *)
   fs : option nat;        (* which worker's socket inode the socket path names (None = absent) *)
   meta : bool;            (* <hash>.meta exists *)
   procs : list proc;
@@ -324,8 +327,9 @@ Section Launcher.
                 then set_proc i (Build_proc G2 (p_w p) (p_res p)) (set_lock (Some i) s)
                 else set_proc i (Build_proc G4 (p_w p) (p_res p)) s
         | G2 => if probe s then set_proc i (Build_proc G3 (p_w p) (p_res p)) s
-                else set_proc i (Build_proc G3 (p_w p) (p_res p)) (set_meta false (set_fs None s))
+                else set_proc i (Build_proc G3u (p_w p) (p_res p)) (set_lock None (set_meta false (set_fs None s)))
         | G3 => set_proc i (Build_proc G4 (p_w p) (p_res p)) (set_lock None s)
+        | G3u => set_proc i (Build_proc G4 (p_w p) (p_res p)) s
         | G4 => s
         end
     end.
@@ -374,7 +378,7 @@ Definition ideal_flock (l : option nat) (_ : nat) : bool := match l with None =>
 
 Definition ppc_code (p : ppc) : N :=
   match p with L0 => 0 | L1 => 1 | L2 => 2 | L3 => 3 | L4 => 4 | L5 => 5 | L6 => 6
-             | G0 => 10 | G1 => 11 | G2 => 12 | G3 => 13 | G4 => 14 end.
+             | G0 => 10 | G1 => 11 | G2 => 12 | G3 => 13 | G3u => 13 | G4 => 14 end.
 Definition wph_code (p : wph) : N :=
   match p with W0 => 0 | W1 => 1 | W2 => 2 | W3 => 3 | W4 => 4 | W5 => 5 | W6 => 6 | W7 => 7 | WFail => 8 end.
 Definition optnat_code (o : option nat) : N := match o with Some k => N.of_nat k + 1 | None => 0 end.
